@@ -685,7 +685,9 @@ theorem rep_step2 (a a' : AbstractModel) (m m' : MDL) (e : AEdit) (ce : Edit)
           cases hcnt : sh.shapeMeshCount.get? lod with
           | none => simp [Spec.Mdl.applyEdit, hl, hsh, hcnt] at ha
           | some c =>
-            simp only [Spec.Mdl.applyEdit, hl, hmesh, hsh, hcnt, Option.bind_eq_bind,
+            have hsub'' := hsub'
+            obtain ⟨s0, rest0, hsm0, _⟩ := hsub''
+            simp only [Spec.Mdl.applyEdit, hl, hmesh, hsh, hcnt, hsm0, Option.bind_eq_bind,
               Option.bind_some] at ha
             split at ha
             · cases ha
